@@ -3,6 +3,7 @@
 
 from __future__ import annotations
 
+import re
 from typing import TYPE_CHECKING, Any
 
 from _griffe.mixins import DelMembersMixin, GetMembersMixin, SetMembersMixin
@@ -12,6 +13,18 @@ if TYPE_CHECKING:
     from pathlib import Path
 
     from _griffe.models import Module
+
+
+_line_ends = re.compile(r"\r\n|\r|\n")
+
+
+def _source_lines(code: str) -> list[str]:
+    # Split source code on the line ends the Python parser knows. `str.splitlines` also splits
+    # on form feeds, vertical tabs and Unicode separators, which shifts every following line number.
+    lines = _line_ends.split(code)
+    if not lines[-1]:
+        lines.pop()
+    return lines
 
 
 class LinesCollection:
